@@ -371,6 +371,10 @@ pub fn gen_case(id: &str, rng: &mut Rng) -> Result<(Vec<u8>, Vec<Inj>, Vec<(u32,
                     let at = *rng.pick(&plain);
                     let name = ops[at].name.as_str();
                     let structured = matches!(name, "Block" | "Loop" | "If" | "Else" | "End" | "TryTable");
+                    // a site whose probe was withdrawn (clear_instr_at) gets no further injection in that mode
+                    if plan.iter().any(|i| i.func == fid && i.at == at && i.mode.clears().is_some()) {
+                        continue;
+                    }
                     match rng.below(9) {
                         0 | 1 => push(&mut plan, fid, at, Mode::Before, Probe::Host, rng),
                         2 | 3 => push(&mut plan, fid, at, Mode::After, Probe::Host, rng),
@@ -396,6 +400,21 @@ pub fn gen_case(id: &str, rng: &mut Rng) -> Result<(Vec<u8>, Vec<Inj>, Vec<(u32,
                             }
                         }
                         _ => {}
+                    }
+                    // 1 in 10: the probe just attached to this site (before / after / alternate) is withdrawn again: it must never fire
+                    if rng.chance(1, 10) {
+                        if let Some(last) = plan.last().cloned() {
+                            let c = match last.mode {
+                                Mode::Before => Some(Mode::ClearBefore),
+                                Mode::After => Some(Mode::ClearAfter),
+                                Mode::Alt | Mode::EmptyAlt => Some(Mode::ClearAlt),
+                                _ => None,
+                            };
+                            if let (Some(c), true) = (c, last.func == fid) {
+                                // clears every probe of that mode at the site
+                                plan.push(Inj { func: last.func, at: last.at, mode: c, path: if rng.bool() { Path::Iter } else { Path::Modifier }, uid: last.uid, n_ops: 1, leading_drop: false, probe: Probe::Host });
+                            }
+                        }
                     }
                 }
             }
@@ -700,7 +719,21 @@ impl Sem {
                 if !relevant {
                     continue;
                 }
-                let Some(exp) = expected_ticks(inj, ops, &ioe, &r0.events) else { continue };
+                let Some(mut exp) = expected_ticks(inj, ops, &ioe, &r0.events) else { continue };
+                // withdrawn by a later clear_instr_at of that mode at the site: must never fire
+                let pos = plan.iter().position(|p| std::ptr::eq(p, *inj)).unwrap_or(0);
+                let kind = match inj.mode {
+                    Mode::Before => Some(Mode::ClearBefore),
+                    Mode::After => Some(Mode::ClearAfter),
+                    Mode::Alt | Mode::EmptyAlt => Some(Mode::ClearAlt),
+                    _ => None,
+                };
+                if let Some(k) = kind {
+                    if plan.iter().skip(pos + 1).any(|p| p.func == inj.func && p.at == inj.at && p.mode == k) {
+                        exp.clear();
+                        out.ob("withdrawn_probe_checked");
+                    }
+                }
                 let got = observed.get(&(inj.uid as i32)).cloned().unwrap_or_default();
                 out.obn("probe_firings_compared", exp.len() as u64);
                 fired_asserted += exp.len();
